@@ -1,5 +1,6 @@
 import NflowsModel.Audit.Tool
 import NflowsModel.Properties.C17
 import NflowsModel.Properties.C17E
+import NflowsModel.Properties.C17W
 
 #audit_namespace Properties.C17
